@@ -156,6 +156,57 @@ def same_id_two_owners(s):
     buy(s, "usr3", 9, 9)
 
 
+def lifecycle_owner_misuse(s):
+    """C08 / C05 / C10 / C03: the *current owner* of a record sends every message kind that does
+    not fit the record's lifecycle state — preparing, finalized (before / after expiry), sold
+    (before / after the original expiry, fee pending), traded bucket."""
+    ask = G(n=[["ujunox", 10000]])
+
+    def every_kind(u, lid, bid=None):
+        s.do(E(u, {"k": "change_ask", "id": lid, "ask": G(n=[["uatom", 1]])}), "misuse")
+        s.do(E(u, {"k": "add_to_listing", "id": lid}, [["uosmo", 1]]), "misuse")
+        s.do(E(u, {"k": "finalize", "id": lid, "secs": 600}), "misuse")
+        s.do(E(u, {"k": "withdraw_purchased", "id": lid}), "misuse")
+        s.do(E(u, {"k": "delete_listing", "id": lid}), "misuse")
+
+    # listing 1: sold (fee pending on both sides), buyer misuses it before and after the original expiry
+    listing(s, "usr0", 1, [["ujunox", 1000], ["uatom", 5]], ask, secs=600)
+    bucket(s, "usr1", 1, [["ujunox", 10000]])
+    buy(s, "usr1", 1, 1)
+    s.do(E("usr1", {"k": "change_ask", "id": 1, "ask": G(n=[["uatom", 1]])}), "misuse")
+    s.do(E("usr1", {"k": "add_to_listing", "id": 1}, [["uosmo", 1]]), "misuse")
+    nft_send(s, "usr1", COLL1, "2", {"k": "add_to_listing_cw721", "id": 1})
+    cw20_send(s, "usr1", CW20A, 5, {"k": "add_to_listing_cw20", "id": 1})
+    s.do(E("usr1", {"k": "finalize", "id": 1, "secs": 600}), "misuse")
+    s.do(E("usr1", {"k": "delete_listing", "id": 1}), "misuse")                # sold, not expired
+    s.do(E("usr0", {"k": "delete_listing", "id": 1}), "misuse")                # the seller, after the sale
+    s.do(E("usr1", {"k": "buy", "lid": 1, "bid": 1}), "misuse")
+    # listing 2: finalized, not expired — the seller misuses it; listing 3 stays in preparation
+    listing(s, "usr2", 2, [["uatom", 7]], ask, secs=600)
+    listing(s, "usr2", 3, [["uatom", 8]], ask, finalize=False)
+    s.do(E("usr2", {"k": "change_ask", "id": 2, "ask": G(n=[["uatom", 1]])}), "misuse")
+    s.do(E("usr2", {"k": "add_to_listing", "id": 2}, [["uosmo", 1]]), "misuse")
+    s.do(E("usr2", {"k": "finalize", "id": 2, "secs": 700}), "misuse")
+    s.do(E("usr2", {"k": "withdraw_purchased", "id": 2}), "misuse")
+    s.do(E("usr2", {"k": "delete_listing", "id": 2}), "misuse")
+    s.do(E("usr2", {"k": "withdraw_purchased", "id": 3}), "misuse")
+    # traded bucket (fee pending): its new owner, the seller, misuses it
+    s.do(E("usr0", {"k": "create_bucket", "id": 1}, [["uatom", 1]]), "misuse")          # id taken
+    s.do(E("usr0", {"k": "buy", "lid": 3, "bid": 1}), "misuse")                         # listing 3 is not finalized
+    adv(s, 600, 1)                                                                        # past every expiration
+    s.do(E("usr1", {"k": "delete_listing", "id": 1}), "misuse")                # sold + expired: still only withdrawable
+    s.do(E("usr1", {"k": "finalize", "id": 1, "secs": 600}), "misuse")
+    s.do(E("usr0", {"k": "buy", "lid": 2, "bid": 1}), "misuse")                # expired
+    s.do(E("usr2", {"k": "finalize", "id": 2, "secs": 600}), "misuse")         # no re-finalisation after expiry
+    s.do(E("usr2", {"k": "change_ask", "id": 2, "ask": G(n=[["uatom", 1]])}), "misuse")
+    s.do(E("usr1", {"k": "withdraw_purchased", "id": 1}), "valid")
+    s.do(E("usr1", {"k": "withdraw_purchased", "id": 1}), "misuse")            # twice
+    s.do(E("usr0", {"k": "remove_bucket", "id": 1}), "valid")
+    s.do(E("usr0", {"k": "remove_bucket", "id": 1}), "misuse")                 # twice
+    s.do(E("usr2", {"k": "delete_listing", "id": 2}), "valid")
+    s.do(E("usr2", {"k": "delete_listing", "id": 2}), "misuse")
+
+
 def fee_boundaries(s):
     """C06 / C17: amounts around multiples of 200, both fee denominations."""
     lid = 0
@@ -586,6 +637,7 @@ SCRIPTS = {
     "traded_bucket_zero_second_fee": (world.default_cfg, traded_bucket_zero_second_fee, ()),
     "interleaved_collections": (world.default_cfg, interleaved_collections, ()),
     "same_id_two_owners": (world.default_cfg, same_id_two_owners, ()),
+    "lifecycle_owner_misuse": (world.default_cfg, lifecycle_owner_misuse, ()),
     "fee_boundaries": (world.default_cfg, fee_boundaries, ()),
     "royalties_both_sides": (world.default_cfg, royalties_both_sides, ()),
     "royalty_cap": (royalty_cap_cfg, royalty_cap, ()),
